@@ -109,29 +109,31 @@ theorem inv_foldKids (g : Graph) (s : List Nat) (f : St → Nat → Option St)
     · rename_i st1 h1
       exact inv_foldKids g s f hf ks st1 st' (hf st k st1 h h1) he
 
+theorem inv_lazyAnswer (g : Graph) (root : Nat) (s : List Nat) (st : St) (m : Nat) (h : Inv g s st) (hm : m ∈ st.seen) :
+    Inv g s (lazyAnswer g root st m) := by
+  unfold lazyAnswer
+  split
+  · rename_i i hi
+    apply inv_emit g s st i h
+    by_cases hs : m ∈ s
+    · exact Or.inr ⟨m, hs, hi⟩
+    · exact Or.inl (h.seenIds m hm hs i hi)
+  · split
+    · rename_i name hr
+      exact inv_emit g s st name h (Or.inl (h.refsDefs _ name hr))
+    · split
+      · exact h
+      · have hr := inv_register g s st (g m).base h
+        exact inv_emit g s _ _ hr.1 (Or.inl hr.2)
+
 theorem inv_lazyKid (g : Graph) (root : Nat) (s : List Nat) (conv : St → Nat → Option St)
     (hc : ∀ st k st', Inv g s st → conv st k = some st' → Inv g s st')
     (st : St) (m : Nat) (st' : St) (h : Inv g s st) (he : lazyKid g root conv st m = some st') : Inv g s st' := by
   unfold lazyKid at he
   split at he
   · rename_i hseen
-    have hseen' : m ∈ st.seen := by simpa using hseen
-    split at he
-    · rename_i i hi
-      cases he
-      apply inv_emit g s st i h
-      by_cases hs : m ∈ s
-      · exact Or.inr ⟨m, hs, hi⟩
-      · exact Or.inl (h.seenIds m hseen' hs i hi)
-    · split at he
-      · rename_i name hr
-        cases he
-        exact inv_emit g s st name h (Or.inl (h.refsDefs _ name hr))
-      · split at he
-        · cases he; exact h
-        · cases he
-          have hr := inv_register g s st (g m).base h
-          exact inv_emit g s _ _ hr.1 (Or.inl hr.2)
+    cases he
+    exact inv_lazyAnswer g root s st m h (by simpa using hseen)
   · exact hc st m st' h he
 
 theorem inv_stepRegister (g : Graph) (s : List Nat) (o : Opts) (nd : Node) (st : St) (h : Inv g s st) :
@@ -174,6 +176,13 @@ theorem inv_convert (g : Graph) (o : Opts) (root : Nat) :
     simp only [convert] at he
     split at he
     · -- the instance is in `seen`
+      rename_i hseen
+      have hans : Inv g s (if s.contains n = true then
+            lazyAnswer g root { st with counts := fun b => if b = (g n).base then st.counts b + 1 else st.counts b } n
+          else { st with counts := fun b => if b = (g n).base then st.counts b + 1 else st.counts b }) := by
+        split
+        · exact inv_lazyAnswer g root s _ n hc (by simpa using hseen)
+        · exact hc
       split at he
       · simp at he
       · split at he
@@ -181,8 +190,8 @@ theorem inv_convert (g : Graph) (o : Opts) (root : Nat) :
           · rename_i name hr
             cases he
             exact inv_emit g s _ name hc (Or.inl (h.refsDefs _ name hr))
-          · cases he; exact hc
-        · cases he; exact hc
+          · cases he; exact hans
+        · cases he; exact hans
     · -- a fresh instance
       split at he
       · simp at he
